@@ -1740,6 +1740,22 @@ impl TransactionBuilder {
 
     fn validate_fee(&self) -> Result<(), JsError> {
         if let Some(fee) = &self.get_fee_if_set() {
+            // a fee request made after the fee was fixed must not be dropped silently
+            match &self.fee_request {
+                TxBuilderFee::Exactly(exact_fee) if fee != exact_fee => {
+                    return Err(JsError::from_str(&format!(
+                        "Fee differs from the fee that was set explicitly. Requested: {}, Fee: {}",
+                        exact_fee, fee
+                    )));
+                }
+                TxBuilderFee::NotLess(not_less) if fee < not_less => {
+                    return Err(JsError::from_str(&format!(
+                        "Fee is less than the requested minimal fee. Requested: {}, Fee: {}",
+                        not_less, fee
+                    )));
+                }
+                _ => {}
+            }
             let min_fee = min_fee(&self)?;
             if fee < &min_fee {
                 Err(JsError::from_str(&format!(
